@@ -751,7 +751,11 @@ class Interp:
     # ------------------------------------------------------------------------------------------------ calling
     def call(self, relfile, qualname, *args, **kwargs):
         """entry point used by contracts: interpret the real function relfile::qualname"""
-        f = self.resolve(relfile, qualname)
+        try:
+            f = self.resolve(relfile, qualname)
+        except (AttributeError, ImportError) as e:
+            from .engine import TargetMissing
+            raise TargetMissing(f"target {relfile}::{qualname} no longer exists ({type(e).__name__}: {e})")
         if isinstance(f, property):
             f = f.fget
         return self.call_value(f, list(args), kwargs)
